@@ -152,8 +152,8 @@ enum Policy { P_DEFAULT = 0, P_REUSABLE, P_MTSAFE, P_STACK, P_PLACEMENT, P_BUFFE
 static const char *pol_names[] = {"default", "reusable", "reusable_mtsafe", "stack_storage", "placement_alloc", "reusable_buffer", "extra+default", "extra+reusable", "extra+reusable_mtsafe", "reusable_buffer<24-byte items>", "extra(alignas16)+default", "extra(alignas16)+reusable"};
 static bool single_frame(int p) { return p == P_REUSABLE || p == P_PLACEMENT || p == P_BUFFER || p == P_EXTRA_REUSABLE || p == P_BUFFER24 || p == P_EXTRA16_REUSABLE; }
 
-enum { CREATE_S = 0, CREATE_M, CREATE_L, FINISH0, FINISH1, FINISH2, NOPS };
-static const char *op_names[] = {"create(S)", "create(M)", "create(L)", "finish(0)", "finish(1)", "finish(2)"};
+enum { CREATE_S = 0, CREATE_M, CREATE_L, FINISH0, FINISH1, FINISH2, MOVE_CTOR, MOVE_ASSIGN, NOPS };
+static const char *op_names[] = {"create(S)", "create(M)", "create(L)", "finish(0)", "finish(1)", "finish(2)", "move-construct-storage", "move-assign-storage"};
 
 static std::string describe(int pol, const std::vector<int> &seq) {
     std::ostringstream o;
@@ -168,8 +168,18 @@ struct HDefault {
     auto &next() { return st; }
 };
 struct HReusable {
-    Spy<cocls::reusable_storage> st;
-    auto &next() { return st; }
+    // the storage object itself can be moved (e.g. its owner relocated by a growing vector): the warm block moves along
+    std::unique_ptr<Spy<cocls::reusable_storage>> st{new Spy<cocls::reusable_storage>()};
+    auto &next() { return *st; }
+    void move_ctor() {
+        std::unique_ptr<Spy<cocls::reusable_storage>> n(new Spy<cocls::reusable_storage>(std::move(*st)));
+        st = std::move(n);
+    }
+    void move_assign() {
+        std::unique_ptr<Spy<cocls::reusable_storage>> n(new Spy<cocls::reusable_storage>());
+        static_cast<cocls::reusable_storage &>(*n) = std::move(static_cast<cocls::reusable_storage &>(*st));
+        st = std::move(n);
+    }
 };
 struct HMtsafe {
     Spy<cocls::reusable_storage_mtsafe> st;
@@ -293,6 +303,13 @@ static void run_policy(seqx::Runner &R, int pol, const std::vector<int> &seq) {
                 if (cls > max_cls_seen && !(is_mtsafe && !live.empty())) max_cls_seen = cls;
                 seqx::NoCount nc;
                 live.push_back(std::move(s));
+            } else if (op == MOVE_CTOR || op == MOVE_ASSIGN) {
+                if constexpr (requires { h->move_ctor(); }) {
+                    if (op == MOVE_CTOR)
+                        h->move_ctor();
+                    else
+                        h->move_assign();
+                }
             } else {
                 size_t idx = (size_t)(op - FINISH0);
                 live[idx]->gate_p();
@@ -450,6 +467,11 @@ static void dfs(seqx::Runner &R, int pol, int depth, std::vector<int> &seq, int 
             if (nlive >= (single_frame(pol) ? 1 : 3)) continue;
             seq.push_back(op);
             dfs(R, pol, depth, seq, nlive + 1);
+            seq.pop_back();
+        } else if (op == MOVE_CTOR || op == MOVE_ASSIGN) {
+            if (pol != P_REUSABLE || nlive != 0 || seq.empty() || seq.back() == MOVE_CTOR || seq.back() == MOVE_ASSIGN) continue;
+            seq.push_back(op);
+            dfs(R, pol, depth, seq, nlive);
             seq.pop_back();
         } else {
             if (op - FINISH0 >= nlive) continue;
